@@ -10,6 +10,8 @@ import (
 	"encoding/json"
 	"errors"
 	"fmt"
+	"github.com/wundergraph/graphql-go-tools/execution/engine"
+	"github.com/wundergraph/graphql-go-tools/v2/pkg/engine/resolve"
 	"net/http"
 	"sort"
 	"strings"
@@ -50,6 +52,13 @@ var curated = map[string][]string{
 }
 
 var faultKinds = []string{"transport-error", "http-500-empty", "http-200-empty", "http-200-nonjson", "errors-without-data", "entities-one-short", "entities-one-long", "entities-empty"}
+
+// partialKind: an entity request answers with data AND an error whose path
+// points at one field of the first entity, which is null ("this subgraph could
+// not resolve that field for that entity"). It is judged on the engine built
+// with ValidateRequiredExternalFields (tainted objects): dependants must leave
+// the entity out instead of being sent a fabricated null input.
+const partialKind = "entity-field-error"
 
 func families(run *vk.Run) []*family {
 	mk := func(name string, s *fedlab.Supergraph, u *fedlab.Universe, menu func(t, f string) [][]fedlab.ArgUse, bases ...func(fedlab.FieldRef) int) *family {
@@ -410,7 +419,7 @@ func judgeFault(f *family, lab *fedlab.Lab, q string, b *baseline, F []string, k
 	for _, k := range F {
 		inF[k] = true
 	}
-	if strings.HasPrefix(kind, "entities-") {
+	if strings.HasPrefix(kind, "entities-") || kind == partialKind {
 		// the entity-count faults only exist for requests with representations;
 		// a set containing another request is covered by its applicable subset
 		for _, k := range F {
@@ -423,6 +432,7 @@ func judgeFault(f *family, lab *fedlab.Lab, q string, b *baseline, F []string, k
 	}
 	applicable := false
 	notOnlyBatches := false
+	partial := false
 	lab.Sim.Intercept = func(r *fedlab.Request) (*http.Response, error, bool) {
 		if !inF[r.Key()] {
 			return nil, nil, false
@@ -460,6 +470,35 @@ func judgeFault(f *family, lab *fedlab.Lab, q string, b *baseline, F []string, k
 			return 200, body
 		}
 		switch kind {
+		case partialKind:
+			// the first nullable scalar field of the first non-null entity
+			e0, _ := first(ents).(map[string]any)
+			fname := ""
+			var names []string
+			for k := range e0 {
+				names = append(names, k)
+			}
+			sort.Strings(names)
+			for _, k := range names {
+				if k == "__typename" || e0[k] == nil {
+					continue
+				}
+				switch e0[k].(type) {
+				case map[string]any, []any:
+					continue
+				}
+				if nullableEntityField(f, r, k) {
+					fname = k
+					break
+				}
+			}
+			if fname == "" {
+				return 200, body
+			}
+			applicable = true
+			partial = true
+			e0[fname] = nil
+			m["errors"] = []any{map[string]any{"message": "could not resolve " + fname, "path": []any{"_entities", firstIndex(ents), fname}}}
 		case "entities-one-short":
 			if len(ents) == 0 {
 				return 200, body
@@ -528,8 +567,9 @@ func judgeFault(f *family, lab *fedlab.Lab, q string, b *baseline, F []string, k
 	}
 	lost := possiblyLost(b, inF)
 	// (5) completeness: a position all of whose suppliers failed is null or under a null
+	// (not for a partial failure: the other data of that response is good)
 	for _, p := range b.fields {
-		if len(p.suppliers) == 0 {
+		if len(p.suppliers) == 0 || partial {
 			continue
 		}
 		all := true
@@ -631,6 +671,38 @@ func judgeFault(f *family, lab *fedlab.Lab, q string, b *baseline, F []string, k
 	return fmt.Sprintf("nulls=%d reqs=%d/%d", len(newNulls), len(reqs), len(b.reqs)), fails
 }
 
+func first(ents []any) any {
+	for _, e := range ents {
+		if e != nil {
+			return e
+		}
+	}
+	return nil
+}
+
+func firstIndex(ents []any) int {
+	for i, e := range ents {
+		if e != nil {
+			return i
+		}
+	}
+	return 0
+}
+
+// nullableEntityField: the field of the entity type the request asks for is
+// declared nullable in the supergraph.
+func nullableEntityField(f *family, r *fedlab.Request, field string) bool {
+	for _, rep := range r.Reps {
+		tn, _ := rep["__typename"].(string)
+		if t := f.s.Type(tn); t != nil {
+			if fd := t.Field(field); fd != nil {
+				return !strings.HasSuffix(fd.Type, "!")
+			}
+		}
+	}
+	return false
+}
+
 // faultClass refines the fault kind by the shape of the failed requests, so
 // that a known finding about single-representation entity requests does not
 // mask a different defect on batches or root requests.
@@ -715,7 +787,17 @@ func check(t *testing.T, run *vk.Run) {
 				continue
 			}
 			l := fedlab.NewLayout(f.s, in.N, in.Layout, "replay")
-			lab, err := fedlab.NewLab(l, f.u, fedlab.LabOptions{})
+			if f.name == "S-keys" {
+				l = f.layouts[0] // the key declarations are part of the layout
+			}
+			lo := fedlab.LabOptions{}
+			if in.Kind == partialKind {
+				lo = fedlab.LabOptions{
+					Resolver:  resolve.ResolverOptions{ValidateRequiredExternalFields: true},
+					Configure: func(conf *engine.Configuration) { conf.VerifPlannerConfig().BuildFetchReasons = true },
+				}
+			}
+			lab, err := fedlab.NewLab(l, f.u, lo)
 			if err != nil {
 				t.Fatal(err)
 			}
@@ -782,6 +864,45 @@ func check(t *testing.T, run *vk.Run) {
 				}
 			}
 			lab.Close()
+			// partial failures on the engine with tainted-object bookkeeping
+			labT, err := fedlab.NewLab(l, f.u, fedlab.LabOptions{
+				Resolver:  resolve.ResolverOptions{ValidateRequiredExternalFields: true},
+				Configure: func(conf *engine.Configuration) { conf.VerifPlannerConfig().BuildFetchReasons = true },
+			})
+			if err != nil {
+				t.Fatalf("lab (tainting): %v", err)
+			}
+			for _, op := range f.ops {
+				caseNo++
+				if !run.Mine(caseNo) {
+					continue
+				}
+				if run.Expired() {
+					return
+				}
+				q := op.String()
+				b, err := faultFree(f, labT, q)
+				if err != nil || len(b.keys) < 2 || len(b.keys) > 6 {
+					continue
+				}
+				for _, F := range subsets(b.keys, 1) {
+					outcome, fails := judgeFault(f, labT, q, b, F, partialKind)
+					if outcome == "n/a" {
+						continue
+					}
+					run.Eval(1)
+					run.Count("kind:"+partialKind, 1)
+					if run.Outcome(q + "|" + strings.Join(F, ";") + "|" + partialKind + "|" + outcome) {
+						run.Sample(f.name+"/"+partialKind, map[string]any{"layout": l.String(), "operation": q, "failed": F, "kind": partialKind, "outcome": outcome})
+					}
+					for _, fl := range fails {
+						run.Violate(vk.Violation{Clause: fl.clause, Site: fl.site, Class: faultClass(b, F, partialKind),
+							Detail: fmt.Sprintf("layout %s (engine with ValidateRequiredExternalFields)\noperation %s\nfailed requests %v\nfault %s\n%s", l.String(), q, F, partialKind, fl.detail),
+							Input:  map[string]any{"family": f.name, "layout": l.OwnerVector(), "n": l.N, "op": q, "F": F, "kind": partialKind}})
+					}
+				}
+			}
+			labT.Close()
 		}
 	}
 }
